@@ -776,7 +776,7 @@ class ViewRepresentation(OperatorPlatform, abc.ABC):
         if self.is_trivial_when_intermediate_():
             return self.sources[0].natural_join(
                 b,
-                on=on,
+                on=list(zip(on_a, on_b)),  # `on` may be a one-shot iterable, read above
                 jointype=jointype,
                 check_all_common_keys_in_equi_spec=check_all_common_keys_in_equi_spec,
             )
